@@ -184,20 +184,21 @@ Definition stub_connect (env : list string) : stub_conn :=
    OExecFail  cmd.Start fails (not an executable format, dangling link, …)
    OExit      the process exits at once           OCloseFd  it closes its socket and keeps running
    ONoReg     it never registers (time-out)       OCfgErr   Configure fails
-   OSyncFail  Synchronize fails                   ODieLater healthy, dies some time after start-up *)
-Inductive outcome := OGood | OExecFail | OExit | ONoReg | OCloseFd | OCfgErr | OSyncFail | ODieLater.
+   OSyncFail  Synchronize fails                   ODieLater healthy, exits some time after start-up
+   OHangLater healthy, some time after start-up it closes its connection and keeps running *)
+Inductive outcome := OGood | OExecFail | OExit | ONoReg | OCloseFd | OCfgErr | OSyncFail | ODieLater | OHangLater.
 
 (* newLaunchedPlugin returns a plugin (a process exists) *)
 Definition launches (o : outcome) : bool := match o with OExecFail => false | _ => true end.
 (* RegisterPlugin arrives, so Configure is sent *)
 Definition configured (o : outcome) : bool :=
-  match o with OGood | OCfgErr | OSyncFail | ODieLater => true | _ => false end.
+  match o with OGood | OCfgErr | OSyncFail | ODieLater | OHangLater => true | _ => false end.
 (* p.start returns nil *)
 Definition starts (o : outcome) : bool :=
-  match o with OGood | OSyncFail | ODieLater => true | _ => false end.
+  match o with OGood | OSyncFail | ODieLater | OHangLater => true | _ => false end.
 (* plugin.synchronize returns nil *)
 Definition syncs (o : outcome) : bool := match o with OSyncFail => false | _ => true end.
-(* the process is still alive once it has died "later" *)
+(* the plugin still serves requests once the "later" of its outcome has come *)
 Definition survives (o : outcome) : bool := match o with OGood => true | _ => false end.
 
 (* first loop of startPlugins: launch + start, failures are logged and skipped (continue) *)
@@ -237,16 +238,90 @@ Inductive pstate := PGone | PZombie | PRunning.
 Definition state_after_start (o : outcome) : option pstate :=
   match o with
   | OExecFail => None
-  | OGood | ODieLater => Some PRunning
+  | OGood | ODieLater | OHangLater => Some PRunning
   | OExit | OCloseFd | ONoReg | OCfgErr | OSyncFail => Some PGone            (* Kill + Wait *)
   end.
 
 (* in r.plugins after Start (healthy or not yet dead) *)
 Definition active (o : outcome) : bool := (launches o && starts o && syncs o)%bool.
 
-(* stopPlugins stops exactly the plugins in r.plugins *)
-Definition state_after_stop (o : outcome) : option pstate :=
-  match state_after_start o with
-  | Some PRunning => Some (if active o then PGone else PRunning)
-  | s => s
+(* ------------------------------------------------------------------ the plugin table and the process table over time *)
+
+(* One launched process together with what the runtime holds about it:
+     rp_listed  the plugin is an element of r.plugins
+     rp_conn    its connection is still usable (false once the process has exited or closed its end)
+     rp_closed  plugin.closed: set by plugin.close(), which the connection's close handler calls
+                asynchronously some time after the connection was lost, or a failing call during an event
+     rp_proc    the process table entry of cmd.Process *)
+Record rplugin := { rp_d : discovered; rp_listed : bool; rp_conn : bool; rp_closed : bool; rp_proc : pstate }.
+
+Definition rp_name (p : rplugin) : string := d_name (rp_d p).
+
+(* plugin.stop(): Process.Kill, Process.Wait, Process.Release — whatever the state of the connection and whatever
+   the process did meanwhile (a live process is killed, a zombie is reaped): the entry is gone *)
+Definition plugin_stop (p : rplugin) : rplugin :=
+  {| rp_d := rp_d p; rp_listed := rp_listed p; rp_conn := false; rp_closed := rp_closed p; rp_proc := PGone |}.
+
+(* plugin.close() *)
+Definition plugin_close (p : rplugin) : rplugin :=
+  {| rp_d := rp_d p; rp_listed := rp_listed p; rp_conn := false; rp_closed := true; rp_proc := rp_proc p |}.
+
+(* taken out of r.plugins *)
+Definition unlist (p : rplugin) : rplugin :=
+  {| rp_d := rp_d p; rp_listed := false; rp_conn := rp_conn p; rp_closed := rp_closed p; rp_proc := rp_proc p |}.
+
+(* all launched processes when Start has returned: the active ones are listed, open and running; the others
+   were closed and stopped by plugin.start / syncPlugins and never entered r.plugins *)
+Definition world_after_start (oc : discovered -> outcome) (ds : list discovered) : list rplugin :=
+  map (fun p => let o := oc p in
+                {| rp_d := p; rp_listed := active o; rp_conn := active o; rp_closed := negb (active o);
+                   rp_proc := match state_after_start o with Some s => s | None => PGone end |})
+      (filter (fun p => launches (oc p)) ds).
+
+(* r.plugins *)
+Definition r_plugins (w : list rplugin) : list rplugin := filter rp_listed w.
+
+(* the plugin's side: its connection is lost because the process exits (a zombie until somebody waits for it) or
+   because it closes its end and keeps running; the runtime has not noticed anything yet *)
+Definition conn_lost (n : string) (exits : bool) (p : rplugin) : rplugin :=
+  if String.eqb (rp_name p) n
+  then {| rp_d := rp_d p; rp_listed := rp_listed p; rp_conn := false; rp_closed := rp_closed p;
+          rp_proc := match rp_proc p with PRunning => if exits then PZombie else PRunning | s => s end |}
+  else p.
+
+(* the runtime's side: the ttrpc client's close handler runs (plugin.connect: close(p.closeC); p.close()) *)
+Definition notice (n : string) (p : rplugin) : rplugin :=
+  if (String.eqb (rp_name p) n && negb (rp_conn p))%bool then plugin_close p else p.
+
+(* one event or request: the listed plugins are walked; one already closed is passed over, a call on a dead
+   connection fails with a fatal error and closes the plugin; then removeClosedPlugins takes every closed plugin
+   out of r.plugins and stops it (in a goroutine; the model takes the state after it has run) *)
+Definition event_step (p : rplugin) : rplugin :=
+  if rp_listed p
+  then let q := if (negb (rp_closed p) && negb (rp_conn p))%bool then plugin_close p else p in
+       if rp_closed q then unlist (plugin_stop q) else q
+  else p.
+
+(* stopPlugins: for _, p := range r.plugins { p.stop() }; r.plugins = nil — no test of p.closed *)
+Definition stop_step (p : rplugin) : rplugin := if rp_listed p then unlist (plugin_stop p) else p.
+Definition stop_plugins (w : list rplugin) : list rplugin := map stop_step w.
+
+Inductive action :=
+| AConnLost (n : string) (exits : bool)      (* plugin n exits / closes its end *)
+| ANotice (n : string)                       (* the runtime's close handler for plugin n runs *)
+| AEvent                                     (* any event or request goes through the plugins *)
+| AStop.                                     (* Adaptation.Stop *)
+
+Definition step (w : list rplugin) (a : action) : list rplugin :=
+  match a with
+  | AConnLost n exits => map (conn_lost n exits) w
+  | ANotice n => map (notice n) w
+  | AEvent => map event_step w
+  | AStop => stop_plugins w
   end.
+
+Definition run (h : list action) (w : list rplugin) : list rplugin := fold_left step h w.
+
+(* process table entry of the plugin called n (PGone when there never was such a process) *)
+Definition proc_of (w : list rplugin) (n : string) : pstate :=
+  match find (fun p => String.eqb (rp_name p) n) w with Some p => rp_proc p | None => PGone end.
